@@ -329,6 +329,7 @@ func cmdCheck(args []string) int {
 		failed = append(failed, o)
 	}
 	deadReturns := 0
+	var excessDead []string
 	deadAllowed := map[string]int{}
 	for f, c := range p.Cons.ByFunc {
 		deadAllowed[shortName(f)] = c.DeadReturns
@@ -337,8 +338,13 @@ func cmdCheck(args []string) int {
 		deadReturns += len(reachDead[f])
 		// more returns proved unreachable than the contract declares as dead code (deadreturns N, default 0): the
 		// facts on those paths contradict each other - an invariant, a callee's postcondition or an axiom is too strong
-		if len(reachDead[f]) > deadAllowed[f] || len(reachDead[f]) == reachAll[f] {
+		if len(reachDead[f]) == reachAll[f] {
 			failed = append(failed, reachDead[f][0])
+		} else if len(reachDead[f]) > deadAllowed[f] {
+			// not a verdict: a redundant check in the code has the same effect. Reported so that a contract that became
+			// contradictory on some path (or code whose success path died) is looked at.
+			fmt.Printf("WARNING: %s: %d returns are unreachable under the contract, %d declared (deadreturns): %s\n", f, len(reachDead[f]), deadAllowed[f], reachDead[f][0].Name)
+			excessDead = append(excessDead, reachDead[f][0].Name)
 		}
 	}
 	exit := 0
@@ -406,6 +412,7 @@ func cmdCheck(args []string) int {
 			"integer_model":            "int/int64 mathematical (no overflow modelled); uint8/16/32/64 and int8/16/32 wrap modulo 2^N",
 			"vacuity_checks":           len(obls) - nObl,
 			"returns_proved_unreachable": deadReturns,
+			"undeclared_unreachable_returns": excessDead,
 		}
 		if opts.allThree {
 			cov["unstable_obligations"] = unstable
